@@ -49,6 +49,8 @@ func subsets() [][]auth.Permission {
 	}
 	// order and duplicates must not matter either
 	out = append(out, []auth.Permission{"admin", "read"}, []auth.Permission{"write", "write"})
+	// permissions the proxy was not told about (outside validPerms) must simply never match
+	out = append(out, []auth.Permission{"sign"}, []auth.Permission{"sign", "write"}, []auth.Permission{"", "sign", "Read"})
 	return out
 }
 
@@ -220,6 +222,75 @@ func Run(d *fw.Driver, res *fw.Result) error {
 			res.Eval(true, ask)
 			res.Sample(map[string]interface{}{"header": hdr, "query": q, "status": rec.Code, "next": nextRan, "attached": got})
 			res.Compare(fmt.Sprintf("authhttp header=%q query=%q", hdr, q), ask, model, impl, mon)
+		}
+	}
+	// ---- histories on ONE handler value: the verifier's answer for a token changes between requests
+	// (narrowed, widened, revoked, reinstated); each request must get exactly what the verifier says now
+	type step struct {
+		perms  []auth.Permission
+		reject bool
+		via    string // header | query
+	}
+	histories := [][]step{
+		{{perms: []auth.Permission{"read", "write"}, via: "header"}, {perms: []auth.Permission{"read"}, via: "header"}, {reject: true, via: "header"}, {perms: []auth.Permission{"admin"}, via: "query"}},
+		{{perms: []auth.Permission{}, via: "query"}, {perms: []auth.Permission{"admin"}, via: "query"}, {perms: []auth.Permission{}, via: "header"}},
+		{{reject: true, via: "header"}, {perms: []auth.Permission{"write"}, via: "header"}, {reject: true, via: "query"}, {reject: true, via: "header"}},
+		{{perms: []auth.Permission{"read"}, via: "header"}, {perms: []auth.Permission{"read"}, via: "query"}, {reject: true, via: "query"}},
+	}
+	for hi, hist := range histories {
+		var cur step
+		var nextRan bool
+		var got interface{}
+		h := &auth.Handler{
+			Verify: func(ctx context.Context, token string) ([]auth.Permission, error) {
+				if token != "tok" || cur.reject {
+					return nil, errors.New("rejected")
+				}
+				return cur.perms, nil
+			},
+			Next: func(w http.ResponseWriter, r *http.Request) {
+				nextRan = true
+				got = observe(r.Context())
+				w.WriteHeader(200)
+			},
+		}
+		for si, st := range hist {
+			cur, nextRan, got = st, false, nil
+			u := "/rpc"
+			hdr, q := "", ""
+			if st.via == "query" {
+				q = "tok"
+				u += "?token=tok"
+			} else {
+				hdr = "Bearer tok"
+			}
+			req := httptest.NewRequest("GET", u, nil)
+			if hdr != "" {
+				req.Header.Set("Authorization", hdr)
+			}
+			rec := httptest.NewRecorder()
+			h.ServeHTTP(rec, req)
+			vt := []map[string]interface{}{}
+			if !st.reject {
+				vt = append(vt, map[string]interface{}{"token": "tok", "perms": strs(st.perms)})
+			}
+			ask := map[string]interface{}{"op": "authhttp", "header": hdr, "query": q, "verify": vt}
+			model, err := d.Ask(ask)
+			if err != nil {
+				return err
+			}
+			impl := map[string]interface{}{"status": rec.Code, "next": nextRan, "attached": got}
+			mon := ""
+			if st.reject {
+				if nextRan || rec.Code != 401 {
+					mon = fmt.Sprintf("history %d step %d: the verifier now rejects the token but the request got status %d, next=%v, attached=%v", hi, si, rec.Code, nextRan, got)
+				}
+			} else if !nextRan || !fw.Equal(got, strs(st.perms)) {
+				mon = fmt.Sprintf("history %d step %d: the verifier now returns %v for the token but the next handler ran=%v with %v", hi, si, st.perms, nextRan, got)
+			}
+			res.Count("http.history")
+			res.Eval(true, []interface{}{"history", hi, si})
+			res.Compare(fmt.Sprintf("authhttp history=%d step=%d", hi, si), ask, model, impl, mon)
 		}
 	}
 	res.Exhaustive = true
